@@ -17,7 +17,9 @@ MAIN_CLAUSES = list(engine_a.CLAUSES)
 RULE = (
     "history = pack of seeded op sequences (quick: 4..12 ops, thorough: 6..30) on a pool of <=6 Food objects with "
     "interleaved environment ops (include_fat / include_protein flips, population / daily-need changes); a case = one "
-    "sequence judged op by op against a reference label algebra; non-trivial = >=2 ops executed and at least one "
+    "sequence judged op by op against a reference label algebra (the ops include the two in-place ones - index "
+    "assignment and set_to_zero_after_month - after which only the target may differ, and construction from arrays "
+    "the harness keeps and re-checks after every op); non-trivial = >=2 ops executed and at least one "
     "binary op (Food o Food, binary predicate) or unit conversion executed; distinct = distinct op-sequence digest"
 )
 ASSUMPTIONS = [
